@@ -44,8 +44,7 @@ type chargingStation struct {
 	diagnosticsHandler   diagnostics.ChargingStationHandler
 	displayHandler       display.ChargingStationHandler
 	dataHandler          data.ChargingStationHandler
-	responseHandler      chan ocpp.Response
-	errorHandler         chan error
+	outcomeHandler       chan asyncOutcome
 	callbacks            callbackqueue.CallbackQueue
 	stopC                chan struct{}
 	errC                 chan error // external error channel
@@ -68,7 +67,15 @@ func (cs *chargingStation) Errors() <-chan error {
 // Callback invoked whenever a queued request is canceled, due to timeout.
 // By default, the callback returns a GenericError to the caller, who sent the original request.
 func (cs *chargingStation) onRequestTimeout(_ string, _ ocpp.Request, err *ocpp.Error) {
-	cs.errorHandler <- err
+	cs.outcomeHandler <- asyncOutcome{err: err}
+}
+
+// asyncOutcome is the outcome of a request sent asynchronously: a response or an error.
+// Both travel on one channel: the callbacks are matched to the outcomes by order, so the order in which
+// the outcomes were reported must be the order in which they are handled.
+type asyncOutcome struct {
+	response ocpp.Response
+	err      error
 }
 
 func (cs *chargingStation) BootNotification(reason provisioning.BootReason, model string, vendor string, props ...func(request *provisioning.BootNotificationRequest)) (*provisioning.BootNotificationResponse, error) {
@@ -539,19 +546,14 @@ func (cs *chargingStation) SendRequestAsync(request ocpp.Request, callback func(
 func (cs *chargingStation) asyncCallbackHandler() {
 	for {
 		select {
-		case confirmation := <-cs.responseHandler:
+		case outcome := <-cs.outcomeHandler:
 			// Get and invoke callback
 			if callback, ok := cs.callbacks.Dequeue("main"); ok {
-				callback(confirmation, nil)
+				callback(outcome.response, outcome.err)
+			} else if outcome.err == nil {
+				cs.error(fmt.Errorf("no callback available for incoming response %v", outcome.response.GetFeatureName()))
 			} else {
-				cs.error(fmt.Errorf("no callback available for incoming response %v", confirmation.GetFeatureName()))
-			}
-		case protoError := <-cs.errorHandler:
-			// Get and invoke callback
-			if callback, ok := cs.callbacks.Dequeue("main"); ok {
-				callback(nil, protoError)
-			} else {
-				cs.error(fmt.Errorf("no callback available for incoming error %w", protoError))
+				cs.error(fmt.Errorf("no callback available for incoming error %w", outcome.err))
 			}
 		case <-cs.stopC:
 			// Handler stopped, cleanup callbacks.
